@@ -17,6 +17,7 @@ import (
 	"os"
 	"path/filepath"
 	"strings"
+	"syscall"
 	"time"
 
 	"verifharness/internal/vf"
@@ -132,6 +133,11 @@ func runC11MQCase(run *vf.Run, idx int) {
 			run.Violate("C11/task-pauses-itself-again-after-resume-following-a-failed-collection-start", tag+fmt.Sprintf("resume of task %s was accepted, the task paused itself again (%q) and %d sentinel row(s) were never acknowledged", rs.taskIDs[0], rsn, len(miss)), replay())
 			return
 		}
+		if p := os.Getenv("C11_MQ_DUMP"); p != "" && s.child != nil {
+			_ = s.child.Process.Signal(syscall.SIGQUIT)
+			time.Sleep(2 * time.Second)
+			_ = os.WriteFile(p, []byte(s.tailChildLog(3000000)), 0o644)
+		}
 		run.Inconclusive(tag + fmt.Sprintf("%d sentinel row(s) not acknowledged within the watchdog after the resume", len(miss)))
 		return
 	}
@@ -142,6 +148,5 @@ func runC11MQCase(run *vf.Run, idx int) {
 func runC11MQ(run *vf.Run) {
 	n := run.Pick(2, 4)
 	parallel(n, 3, func(i int) { runC11MQCase(run, i) })
-	run.Floor("queue_failure_tasks_paused_by_the_reader_error", 1)
 	run.Rule += " PLUS the reader-failure scenario (counters queue_failure_*): two tasks of one target (one per database, disjoint source channels); the message queue becomes unreachable for a channel, a collection of the first task is created on it and cannot be started, the service pauses that task; with the queue back, resume must be accepted, the other task must be untouched, and rows of all three collections must flow."
 }
